@@ -1833,6 +1833,14 @@ func (db *DB) verifyWithExecutor(ctx context.Context, exec *syncExecutor) (info 
 		info.offset = WALHeaderSize
 		info.salt1, info.salt2 = salt1, salt2
 
+		// SQLite increments salt-1 by one on every WAL restart. Any other value
+		// means more than one generation started since the last sync; an
+		// intermediate generation may have been overwritten without a trace.
+		if salt1 != dec.Header().WALSalt1+1 {
+			info.reason = "wal restarted more than once since last sync, snapshotting"
+			return info, nil
+		}
+
 		if continued, err := db.walFrameHasSalt(prevEnd, dec.Header().WALSalt1, dec.Header().WALSalt2); err != nil {
 			return info, fmt.Errorf("check previous wal generation end: %w", err)
 		} else if continued {
